@@ -191,13 +191,23 @@ CPolling == C.tr = "polling" /\ C.inbox = <<>>
 CPollReq == /\ C.ph \in {"up", "closing0"} /\ CPolling /\ get = None
             /\ get' = [st |-> "req", kind |-> "poll"]
             /\ UNCHANGED <<C, S, post, c2s, s2c>>
-SPollAnswer ==
+\* the server receives the GET: a session that is closed by now is refused (400) whatever is
+\* still queued for it - what was sent just before a server-side disconnect() and not collected
+\* by a poll already waiting is never delivered (the root of finding F6)
+SPollAdmit ==
     /\ get = [st |-> "req", kind |-> "poll"]
+    /\ get' = IF S.ph = "up" THEN [st |-> "req", kind |-> "polladm"]
+              ELSE [st |-> "resp", code |-> 400, body |-> <<>>]
+    /\ UNCHANGED <<C, S, post, c2s, s2c>>
+\* a waiting poll is answered with what the queue holds (up to the cap); when the session was
+\* closed under it and nothing is queued, the sentinel releases it with an empty payload
+SPollAnswer ==
+    /\ get = [st |-> "req", kind |-> "polladm"]
     /\ \/ /\ S.q # <<>> /\ S.tr \in {"polling", "upging"}
           /\ get' = [st |-> "resp", code |-> 200, body |-> Take(S.q, SBatch)]
           /\ S' = [S EXCEPT !.q = Drop(@, SBatch)]
-       \/ /\ S.q = <<>> /\ S.ph = "closed"                   \* the session is gone
-          /\ get' = [st |-> "resp", code |-> 400, body |-> <<>>]
+       \/ /\ S.q = <<>> /\ S.ph = "closed"
+          /\ get' = [st |-> "resp", code |-> 200, body |-> <<>>]
           /\ UNCHANGED S
     /\ UNCHANGED <<C, post, c2s, s2c>>
 CPollRecv == /\ get.st = "resp" /\ C.ph # "opening"
@@ -259,7 +269,7 @@ SWsGone == /\ S.ph = "up" /\ S.tr \in {"websocket", "upging"} /\ C.ph = "closed"
 Internal ==
     \/ SOpen \/ SOpenResp \/ COpened \/ SWsOpen \/ COpenedWs \/ CProc \/ SProc
     \/ CProbe \/ SProbe \/ CProbed \/ SUpgraded \/ CProbeFail
-    \/ CPollReq \/ SPollAnswer \/ CPollRecv \/ CPost \/ SPostRecv \/ SPostDone \/ CPostDone
+    \/ CPollReq \/ SPollAdmit \/ SPollAnswer \/ CPollRecv \/ CPost \/ SPostRecv \/ SPostDone \/ CPostDone
     \/ CWsWrite \/ SWsRecv \/ SWsWrite \/ CWsRecv \/ CWsGone \/ SWsGone
     \/ CDiscEvent \/ CFinish \/ CWsCloseDrop
 Env == COpenReq \/ CWsOpenReq \/ CSend \/ SSend \/ CDisconnect \/ SDisconnect \/ SPing
